@@ -4151,3 +4151,17 @@ def _(I, a):
             return z3.If(z3.And(z3.UGE(c, 65), z3.ULE(c, 90)), c + 32, c)
         return c + 32 if 65 <= c <= 90 else c
     return b_eq(low(deref(a[0])), low(deref(a[1])))
+
+
+@model('std::mem::size_of', 'core::mem::size_of')
+def _(I, a):
+    m = re.search(r'size_of::<(.*)>$', I.cur_func)
+    ty = m.group(1) if m else ''
+    if ty in INT_W:
+        return INT_W[ty] // 8
+    am = re.match(r'\[(\w+); (\d+)\]$', ty)
+    if am and am.group(1) in INT_W:
+        return INT_W[am.group(1)] // 8 * int(am.group(2))
+    if ty == 'bool':
+        return 1
+    raise Unsupported('size_of ' + ty)
